@@ -175,3 +175,57 @@ package object
 //@   modifies h.offset
 //@   ensures next.hash.good: validObj(k) && (ok ==> validObj(v))
 //@   panics maybe
+
+// printing a container prints its elements: nothing is changed and nothing can go wrong
+//@ func (ao *Array) Inspect() (result string)
+//@   modifies nothing
+//@   panics never
+//@ func (h *Hash) Inspect() (result string)
+//@   modifies nothing
+//@   panics never
+
+// the pairs of a hash as a new slice (sorted by sort.Sort, whose effect is modelled as a permutation)
+//@ func (h *Hash) Entries() (result []HashPair)
+//@   modifies nothing
+//@   ensures entries.fresh: len(result) == 0 || fresh(result)
+//@   panics never
+//@ func (a ByName) Len() (result int)
+//@   modifies nothing
+//@   panics never
+//@ func (a ByName) Swap(i int, j int)
+//@   requires 0 <= i && i < len(a) && 0 <= j && j < len(a)
+//@   modifies a[*]
+//@   panics never
+//@ func (a ByName) Less(i int, j int) (result bool)
+//@   requires 0 <= i && i < len(a) && 0 <= j && j < len(a)
+//@   modifies nothing
+//@   panics never
+
+// the Go value handed to fmt.Sprintf by the sprintf built-in: a plain read
+//@ func (ao *Array) ToInterface() (result interface{})
+//@   modifies nothing
+//@   panics never
+//@ func (b *Boolean) ToInterface() (result interface{})
+//@   modifies nothing
+//@   panics never
+//@ func (f *Float) ToInterface() (result interface{})
+//@   modifies nothing
+//@   panics never
+//@ func (h *Hash) ToInterface() (result interface{})
+//@   modifies nothing
+//@   panics never
+//@ func (i *Integer) ToInterface() (result interface{})
+//@   modifies nothing
+//@   panics never
+//@ func (n *Null) ToInterface() (result interface{})
+//@   modifies nothing
+//@   panics never
+//@ func (r *Regexp) ToInterface() (result interface{})
+//@   modifies nothing
+//@   panics never
+//@ func (s *String) ToInterface() (result interface{})
+//@   modifies nothing
+//@   panics never
+//@ func (v *Void) ToInterface() (result interface{})
+//@   modifies nothing
+//@   panics never
